@@ -269,6 +269,7 @@ pub fn user_decls() -> String {
     s.push_str("type Wrap<T> = {\nv: T\n}\n");
     s.push_str("implement ToString for Wrap<T ToString> {\nfn str(s) {\nvh_emit_int(506)\n\"W(\" .. s.v .. \")\"\n}\n}\n");
     s.push_str("implement Equal for Wrap<T Equal> {\nfn equal(a, b) {\nvh_emit_int(501)\na.v == b.v\n}\n}\n");
+    s.push_str("fn applyf(f: A -> B, x: A) -> B = f(x)\nfn applyf2(f: (A, A) -> B, x: A, y: A) -> B = f(x, y)\n");
     s.push_str(&container("Bag", 300, false));
     s.push_str(&container("Rg", 400, true));
     s
@@ -340,6 +341,18 @@ pub const GENS: &[Gen] = &[
     Gen { name: "gsub", cap: Cap::Num, constraint: " Num", template: "fn gsub{S}(a: {TC}, b: {T}) -> {T} = a - b", args: Args::Two, ret: Ret::T, needs: None },
     Gen { name: "gmul", cap: Cap::Num, constraint: " Num", template: "fn gmul{S}(a: {TC}, b: {T}) -> {T} = a * b", args: Args::Two, ret: Ret::T, needs: None },
     Gen { name: "gdiv", cap: Cap::Num, constraint: " Num", template: "fn gdiv{S}(a: {TC}, b: {T}) -> {T} = a / b", args: Args::Two, ret: Ret::T, needs: None },
+    // lambdas and tasks created inside a generic function that capture values of the generic type (each instantiation needs its own code)
+    Gen { name: "lamshow", cap: Cap::ToString, constraint: " ToString", template: "fn lamshow{S}(x: {TC}) -> string {\nlet f = () -> \"<\" .. x .. \">\"\nf()\n}", args: Args::One, ret: Ret::Str, needs: None },
+    Gen { name: "lamnest", cap: Cap::ToString, constraint: " ToString", template: "fn lamnest{S}(x: {TC}) -> string {\nlet f = () -> {\nlet g = () -> \"<\" .. x .. \">\"\ng()\n}\nf()\n}", args: Args::One, ret: Ret::Str, needs: None },
+    Gen { name: "lamarg", cap: Cap::ToString, constraint: " ToString", template: "fn lamarg{S}(x: {TC}) -> string {\nlet f = (y: {T}) -> \"<\" .. y .. \">\"\nf(x)\n}", args: Args::One, ret: Ret::Str, needs: None },
+    Gen { name: "taskshow", cap: Cap::ToString, constraint: " ToString", template: "fn taskshow{S}(x: {TC}) -> string {\nlet c: channel<string> = channel()\ntask {\nc.write(\"<\" .. x .. \">\")\n}\nc.read()\n}", args: Args::One, ret: Ret::Str, needs: None },
+    Gen { name: "lamsame", cap: Cap::Equal, constraint: " Equal", template: "fn lamsame{S}(a: {TC}, b: {T}) -> bool {\nlet f = () -> a == b\nf()\n}", args: Args::Two, ret: Ret::Bool, needs: None },
+    Gen { name: "lampick", cap: Cap::Ord, constraint: " Ord", template: "fn lampick{S}(a: {TC}, b: {T}) -> {T} {\nlet pick = (first: bool) -> if first {\na\n} else {\nb\n}\npick(a > b)\n}", args: Args::Two, ret: Ret::T, needs: None },
+    // interface methods passed as first-class function values inside a generic function
+    Gen { name: "valshow", cap: Cap::ToString, constraint: " ToString", template: "fn valshow{S}(x: {TC}) -> string = applyf(ToString.str, x)", args: Args::One, ret: Ret::Str, needs: None },
+    Gen { name: "valarea", cap: Cap::Shape, constraint: " Shape", template: "fn valarea{S}(s: {TC}) -> int = applyf(Shape.area, s)", args: Args::One, ret: Ret::Int, needs: None },
+    Gen { name: "valsame", cap: Cap::Equal, constraint: " Equal", template: "fn valsame{S}(a: {TC}, b: {T}) -> bool = applyf2(Equal.equal, a, b)", args: Args::Two, ret: Ret::Bool, needs: None },
+    Gen { name: "valdup", cap: Cap::Clone, constraint: " Clone", template: "fn valdup{S}(x: {TC}) -> {T} {\nlet f = Clone.clone\nf(x)\n}", args: Args::One, ret: Ret::T, needs: None },
     Gen { name: "gpow", cap: Cap::Num, constraint: " Num", template: "fn gpow{S}(a: {TC}, b: {T}) -> {T} = a ^ b", args: Args::Two, ret: Ret::T, needs: None },
 ];
 
@@ -671,6 +684,97 @@ pub fn direct_cases(num: bool) -> Vec<(Case, Expect)> {
         add("direct: Wrap(4) == Wrap(4)".into(), "vh_emit_bool(Wrap(4) == Wrap(4))".into(), vec![ei(501), Emit::Bool(true)]);
         add("direct: int implements the user interface".into(), "vh_emit_int(Shape.area(4))".into(), vec![ei(913), ei(40)]);
     }
+    if !num {
+        v.extend(method_order_cases());
+    }
+    v
+}
+
+// ------------------------------------------------------------------ family P: implementation method order
+
+/// An implementation may list the interface's methods in any order (the resolver matches them by name); every call
+/// form must still reach the method that was named. One case per permutation of a three-method user interface
+/// (same signatures, so a positional mix-up is silent; and differing result types, so it is a type confusion),
+/// plus the prelude's `Ord` implemented in two other orders.
+pub fn method_order_cases() -> Vec<(Case, Expect)> {
+    let mut v = vec![];
+    let perms: [[usize; 3]; 6] = [[0, 1, 2], [0, 2, 1], [1, 0, 2], [1, 2, 0], [2, 0, 1], [2, 1, 0]];
+    let names = ["one", "two", "three"];
+    for (pi, perm) in perms.iter().enumerate() {
+        for typed in [false, true] {
+            let sfx = format!("{}{}", if typed { "Ty" } else { "Sm" }, pi);
+            // result types: all int, or int / string / bool
+            let rty = |k: usize| if !typed { "int" } else { ["int", "string", "bool"][k] };
+            let rval = |k: usize| -> String {
+                if !typed { format!("self.v + {}", k + 1) } else { ["self.v + 1".to_string(), "\"s\" .. self.v".to_string(), "self.v > 0".to_string()][k].clone() }
+            };
+            let mut d = format!("interface Tri{sfx} {{\n");
+            for k in 0..3 {
+                d.push_str(&format!("fn {}(self) -> {}\n", names[k], rty(k)));
+            }
+            d.push_str(&format!("}}\ntype Pa{sfx} = {{\nv: int\n}}\nimplement Tri{sfx} for Pa{sfx} {{\n"));
+            for &k in perm {
+                d.push_str(&format!("fn {}(self) -> {} {{\nvh_emit_int({})\n{}\n}}\n", names[k], rty(k), 701 + k, rval(k)));
+            }
+            d.push_str("}\n");
+            for k in 0..3 {
+                d.push_str(&format!("fn g{}{sfx}(x: T Tri{sfx}) -> {} = Tri{sfx}.{}(x)\n", names[k], rty(k), names[k]));
+            }
+            let emit = |k: usize, e: &str| -> String {
+                if !typed { format!("vh_emit_int({e})") } else { [format!("vh_emit_int({e})"), format!("vh_emit_str({e})"), format!("vh_emit_bool({e})")][k].clone() }
+            };
+            let val = |k: usize| -> Emit {
+                if !typed { ei(10 + k as i64 + 1) } else { [ei(11), Emit::Str("s10".into()), Emit::Bool(true)][k].clone() }
+            };
+            let mut body = format!("let p = Pa{sfx}(10)\n");
+            let mut exp = vec![];
+            for form in 0..3 {
+                for k in 0..3 {
+                    let call = match form {
+                        0 => format!("Tri{sfx}.{}(p)", names[k]),
+                        1 => format!("p.{}()", names[k]),
+                        _ => format!("g{}{sfx}(p)", names[k]),
+                    };
+                    body.push_str(&emit(k, &call));
+                    body.push('\n');
+                    exp.push(ei(701 + k as i64));
+                    exp.push(val(k));
+                }
+            }
+            v.push((
+                Case::new(format!("method order: user interface (one, two, three) implemented in order {:?}, {}", perm.map(|k| names[k]), if typed { "results int/string/bool" } else { "all results int" }), body).decl(d),
+                Expect::emits(exp),
+            ));
+        }
+    }
+    // the prelude's Ord on a user type, methods written in another order than the interface declares them
+    let ord = [("less_than", "<", 801), ("less_than_or_equal", "<=", 802), ("greater_than", ">", 803), ("greater_than_or_equal", ">=", 804)];
+    for (oi, order) in [[3usize, 2, 1, 0], [1, 3, 0, 2]].iter().enumerate() {
+        let ty = format!("Pb{oi}");
+        let mut d = format!("type {ty} = {{\nv: int\n}}\nimplement Equal for {ty} {{\nfn equal(a, b) = a.v == b.v\n}}\nimplement Ord for {ty} {{\n");
+        for &k in order {
+            d.push_str(&format!("fn {}(a, b) {{\nvh_emit_int({})\na.v {} b.v\n}}\n", ord[k].0, ord[k].2, ord[k].1));
+        }
+        d.push_str("}\n");
+        d.push_str(&format!("fn gle{ty}(a: T Ord, b: T) -> bool = a <= b\n"));
+        let mut body = format!("let x = {ty}(1)\nlet y = {ty}(2)\n");
+        let mut exp = vec![];
+        for (_, op, tag) in ord {
+            for (l, r, lv, rv) in [("x", "y", 1, 2), ("y", "x", 2, 1), ("x", "x", 1, 1)] {
+                body.push_str(&format!("vh_emit_bool({l} {op} {r})\n"));
+                exp.push(ei(tag));
+                exp.push(Emit::Bool(match op {
+                    "<" => lv < rv,
+                    "<=" => lv <= rv,
+                    ">" => lv > rv,
+                    _ => lv >= rv,
+                }));
+            }
+        }
+        body.push_str(&format!("vh_emit_bool(gle{ty}(x, y))\nvh_emit_bool(gle{ty}(y, x))\n"));
+        exp.extend([ei(802), Emit::Bool(true), ei(802), Emit::Bool(false)]);
+        v.push((Case::new(format!("method order: Ord on a user type implemented in order {:?}", order.map(|k| ord[k].0)), body).decl(d), Expect::emits(exp)));
+    }
     v
 }
 
@@ -694,7 +798,8 @@ impl Prop for C22 {
     }
     fn run_unit(&self, tier: Tier, unit: usize, out: &mut UnitOut) {
         let ng = n_g_units(tier);
-        let ro = ROpts { budget: u32::MAX, max_steps: 500_000 };
+        // a finite slice: with an unbounded one a task waiting for its host call is only served after the spinning reader has used up the whole budget
+        let ro = ROpts { budget: 1000, max_steps: 500_000 };
         if unit < ng {
             let all = gen_cases(tier, false);
             let lo = unit * G_PER_UNIT;
@@ -723,7 +828,7 @@ impl Prop for C22 {
             "G: generic functions {:?} × all ordered pairs (A, B) of the instantiation types satisfying the constraint, types = {:?}; each case calls the generic at A, B and A again \
              (two-parameter generics at (A,B), (B,A), (A,A)) and then the hand-monomorphised copies; oracle: equal traces (tags emitted by the user implementations + structural rendering of results) \
              and no tag of a type outside A, B. D: every comparison operator on all value pairs of the user struct and the user enum, `..`, method / interface-qualified / type-qualified calls, clone, \
-             a user interface, containers of user types through the prelude's generic implementations, `for` / indexing / indexed assignment on two user containers, Num operators; oracle: exact tag sequence and value \
+             a user interface, containers of user types through the prelude's generic implementations, `for` / indexing / indexed assignment on two user containers, Num operators, and a three-method user interface and the prelude's Ord implemented with the methods written in every / another order (interface-qualified, member and generic calls); oracle: exact tag sequence and value \
              from a Rust model of the user implementations. Every case is counted as non-trivial (each executes at least one dispatch); distinct by case name.",
             GENS.iter().map(|g| g.name).collect::<Vec<_>>(),
             types(tier).iter().map(|t| t.expr()).collect::<Vec<_>>()
